@@ -80,8 +80,8 @@ Proof.
       destruct (ae_result_prefix _ _ p es F1 F2 F3 F4) as [G1 G2].
       repeat split; auto; try lia.
     + destruct (IA _ _ _ H) as (A & B & C & D). nc f; auto.
-      repeat split; auto. intros E. specialize (D E) as [D1 D2]. subst T.
-      rewrite Ht in *.
+      split; [auto|]. split; [auto|]. split; [auto|].
+      intros E. specialize (D E) as [D1 D2]. subst T. subst t.
       apply (ae_result_keeps _ _ p es m F1 F2 F3 F4 D1 D2).
   - destruct (IA _ _ _ H) as (A & B & C & D). nc f; auto.
   - destruct (IA _ _ _ H) as (A & B & C & D). nc f; auto.
@@ -94,7 +94,7 @@ Proof.
   intros I1 I2 I3 I4 I5 K. constructor.
   - (* replies *)
     intros T f m H. pose proof (I5_reply _ I5 T f m) as IR.
-    destruct K; subst x; sproj; auto; destruct H as [H|H]; try discriminate; simpl; auto.
+    destruct K; subst x; sproj; try (simpl; auto; fail); destruct H as [H|H]; try discriminate; simpl; auto.
     injection H as <- <- <-. auto.
   - apply (inv5_ack_kstep s s'); auto.
   - (* matchIdx *)
